@@ -26,6 +26,31 @@ EXHAUSTIVE = True
 RESCALED = ("find_omega_general", "find_omega_quart", "find_omega")
 TOOLS_AT_RESCALED = set()
 
+def module_constants_differ(tmod, lmod, tfn, lfn):
+    """names of module-level constants the pair mentions whose values differ between the two modules"""
+    if tfn is lfn:
+        return []
+    names = set()
+    for fn_ in (tfn, lfn):
+        for n_ in ast.walk(fn_):
+            if isinstance(n_, ast.Name) and isinstance(n_.ctx, ast.Load) and (n_.id in tmod.assigns or n_.id in lmod.assigns):
+                names.add(n_.id)
+    out = []
+    for nm in sorted(names):
+        if (nm in tmod.assigns) != (nm in lmod.assigns):
+            out.append(nm)
+            continue
+        vals = []
+        for m_ in (tmod, lmod):
+            try:
+                vals.append(vkey(Evaluator(m_, inline=True).module_constant(nm)))
+            except Exception:
+                vals.append("src:" + ast.dump(m_.assigns[nm].value))
+        if vals[0] != vals[1]:
+            out.append(nm)
+    return out
+
+
 def sig_weighted(name):
     params, ret = SIG.get(name, (None, None))
     if params is None:
@@ -567,7 +592,12 @@ def run(ctx):
                 stats["preamble"] += 1
         weighted = sig_weighted(name) or any(sig_weighted(c) for c in callees(tmod, tfn) | callees(lmod, lfn))
         scale_sensitive = weighted and (name in SIG and SIG[name][0] is not None)
-        if d.equal and not [s_ for s_ in d.tau_sites if s_[0] != 0] and not scale_sensitive:
+        # the same text is the same behaviour only if the module-level constants it mentions have the same values in both modules
+        # (`rescale=_RESCALE_G` with _RESCALE_G = False here and True there)
+        consts_differ = module_constants_differ(tmod, lmod, tfn, lfn)
+        if consts_differ:
+            ctx.note("%s: same text, but the module constants %s differ between the modules" % (name, consts_differ[:4]))
+        if d.equal and not consts_differ and not [s_ for s_ in d.tau_sites if s_[0] != 0] and not scale_sensitive:
             ctx.ok("C14:identical:%s" % name,
                    sample={"pair": name, "verdict": "normalised trees identical",
                            "commuted": [s_[1] for s_ in d.tau_sites]} if name in ("sintl", "genhkl_base") else None)
